@@ -329,6 +329,19 @@ def main(ck: Check):
                           "armor": armor, "h1": h1, "h2": h2, "a": a, "b": b_, "damage": d1,
                           "values": [vals[0], vals[3], vals[4]]})
 
+                # ... at every magnitude: no ceiling, floor or switch of regime as the totals grow or shrink
+                for k in (1000, 10 ** 6, 10 ** 9, Fraction(1, 1000)):
+                    big_d, big_h = L(float(d1 * k), h1), L(d1, float(h1 * k))
+                    cls_counts["linearity"] += 1
+                    if isinstance(big_d, str) or not close(big_d, float(k) * vals[0]):
+                        fail({"claim": "get_damage linear in damage% (large / small multiples)", "logic": kind, "tag": tag,
+                              "stat": S.short_dict(), "armor": armor, "damage": d1, "hit": h1, "multiple": str(k),
+                              "values": [vals[0], big_d]})
+                    if isinstance(big_h, str) or not close(big_h, float(k) * vals[0]):
+                        fail({"claim": "get_damage linear in hit count (large / small multiples)", "logic": kind, "tag": tag,
+                              "stat": S.short_dict(), "armor": armor, "damage": d1, "hit": h1, "multiple": str(k),
+                              "values": [vals[0], big_h]})
+
             # (d) one calculator answering a sequence of logs with different buffs: every answer equals that of a
             #     fresh calculator (no dependence on earlier logs), and raising a beneficial buff field never lowers it
             mk_calc = lambda: DamageCalculator(character_spec=S, damage_logic=logic, armor=armor,
